@@ -64,6 +64,20 @@ pub struct Case {
     /// (kind, parameter, repetitions) — see `history_source`
     #[serde(default)]
     pub hist: Vec<(u8, u32, u32)>,
+    /// a valid hand-written module in FRONT of the corrupted text, in the same source (index
+    /// into `preludes()`): notation the generator does not produce — whatever sub-lexer handles
+    /// it, the positions reported for what follows must still be positions in this source
+    #[serde(default)]
+    pub prelude: Option<u32>,
+}
+
+/// single-module inputs of the C08 sample files (rejected-notation and boundary-literal inputs,
+/// and the one-purpose modules of the second notation file); used only when they compile
+pub fn preludes() -> Vec<&'static str> {
+    let mut v: Vec<&'static str> = include_str!("../samples/unsupported.asn").split("\n-- @@ --\n").collect();
+    v.extend(include_str!("../samples/literals.asn").split("\n-- @@ --\n"));
+    v.extend(include_str!("../samples/notation2.asn").split("\n\n").filter(|m| m.contains("DEFINITIONS") && m.trim_end().ends_with("END")));
+    v
 }
 
 /// Sources for the history of a thread: earlier operations whose outcome must not influence
@@ -256,25 +270,25 @@ impl Scenario for C17Corrupt {
         if small && strict.len() <= 400 {
             // exhaustive over strict positions; the fault byte and delivery rotate
             for (k, at) in strict.iter().enumerate() {
-                cases.push(Case { c: Corruption::Replace { at: *at, byte: BAD_BYTES[(k + idx as usize) % BAD_BYTES.len()] }, file: k % 3 == 0, ts: k % 7 == 0, pre: 0, hist: vec![] });
+                cases.push(Case { c: Corruption::Replace { at: *at, byte: BAD_BYTES[(k + idx as usize) % BAD_BYTES.len()] }, file: k % 3 == 0, ts: k % 7 == 0, pre: 0, hist: vec![], prelude: None });
             }
         } else {
             for _ in 0..budget {
                 let at = *f.pick(&strict);
-                cases.push(Case { c: Corruption::Replace { at, byte: *f.pick(&BAD_BYTES) }, file: f.chance(1, 3), ts: f.chance(1, 6), pre: 0, hist: vec![] });
+                cases.push(Case { c: Corruption::Replace { at, byte: *f.pick(&BAD_BYTES) }, file: f.chance(1, 3), ts: f.chance(1, 6), pre: 0, hist: vec![], prelude: None });
             }
         }
         // every unit gets at least one corruption at its first and last strict byte
         for u in &units {
             let inside: Vec<usize> = strict.iter().copied().filter(|p| *p >= u.start && *p < u.end).collect();
             if let (Some(a), Some(b)) = (inside.first(), inside.last()) {
-                cases.push(Case { c: Corruption::Replace { at: *a, byte: *f.pick(&BAD_BYTES) }, file: f.chance(1, 2), ts: false, pre: 0, hist: vec![] });
-                cases.push(Case { c: Corruption::Replace { at: *b, byte: *f.pick(&BAD_BYTES) }, file: f.chance(1, 2), ts: false, pre: 0, hist: vec![] });
+                cases.push(Case { c: Corruption::Replace { at: *a, byte: *f.pick(&BAD_BYTES) }, file: f.chance(1, 2), ts: false, pre: 0, hist: vec![], prelude: None });
+                cases.push(Case { c: Corruption::Replace { at: *b, byte: *f.pick(&BAD_BYTES) }, file: f.chance(1, 2), ts: false, pre: 0, hist: vec![], prelude: None });
             }
         }
         for _ in 0..4 {
             let at = *f.pick(&strict);
-            cases.push(Case { c: Corruption::SectorZero { at }, file: f.chance(1, 2), ts: false, pre: 0, hist: vec![] });
+            cases.push(Case { c: Corruption::SectorZero { at }, file: f.chance(1, 2), ts: false, pre: 0, hist: vec![], prelude: None });
             // truncation inside an assignment
             let asg: Vec<&Unit> = units.iter().filter(|u| u.kind == "assignment" && u.end > u.start + 2).collect();
             if !asg.is_empty() {
@@ -283,7 +297,7 @@ impl Scenario for C17Corrupt {
                 while !text.is_char_boundary(at) {
                     at -= 1;
                 }
-                cases.push(Case { c: Corruption::Truncate { at }, file: f.chance(1, 2), ts: false, pre: 0, hist: vec![] });
+                cases.push(Case { c: Corruption::Truncate { at }, file: f.chance(1, 2), ts: false, pre: 0, hist: vec![], prelude: None });
             }
         }
         // two damaged bytes in one assignment: a comma between two components blanked, and a
@@ -340,7 +354,7 @@ impl Scenario for C17Corrupt {
                     }
                     inside
                 });
-                cases.push(Case { c: Corruption::BlankThenReplace { blank, next, at, byte: *f.pick(&BAD_BYTES), in_default }, file: f.chance(1, 3), ts: f.chance(1, 6), pre: 0, hist: vec![] });
+                cases.push(Case { c: Corruption::BlankThenReplace { blank, next, at, byte: *f.pick(&BAD_BYTES), in_default }, file: f.chance(1, 3), ts: f.chance(1, 6), pre: 0, hist: vec![], prelude: None });
             }
         }
         // block comments whose terminator is damaged
@@ -363,7 +377,7 @@ impl Scenario for C17Corrupt {
                     break;
                 }
                 let (e, from) = *f.pick(&ends);
-                cases.push(Case { c: Corruption::BreakCommentEnd { at: e + f.below(2), from }, file: f.chance(1, 2), ts: false, pre: 0, hist: vec![] });
+                cases.push(Case { c: Corruption::BreakCommentEnd { at: e + f.below(2), from }, file: f.chance(1, 2), ts: false, pre: 0, hist: vec![], prelude: None });
             }
         }
         // truncation inside module headers: right after an identifier of the header, the EXPORTS
@@ -380,7 +394,7 @@ impl Scenario for C17Corrupt {
             }).collect();
             let at = if !ends.is_empty() && f.chance(2, 3) { *f.pick(&ends) } else { u.start + 1 + f.below(u.end - u.start - 1) };
             if text.is_char_boundary(at) {
-                cases.push(Case { c: Corruption::TruncateAtBoundary { at }, file: f.chance(1, 2), ts: false, pre: 0, hist: vec![] });
+                cases.push(Case { c: Corruption::TruncateAtBoundary { at }, file: f.chance(1, 2), ts: false, pre: 0, hist: vec![], prelude: None });
             }
         }
         // truncation exactly at unit boundaries: after a complete assignment, after its line break,
@@ -398,7 +412,7 @@ impl Scenario for C17Corrupt {
                 _ => u.start,
             };
             if text.is_char_boundary(at) {
-                cases.push(Case { c: Corruption::TruncateAtBoundary { at }, file: f.chance(1, 2), ts: false, pre: 0, hist: vec![] });
+                cases.push(Case { c: Corruption::TruncateAtBoundary { at }, file: f.chance(1, 2), ts: false, pre: 0, hist: vec![], prelude: None });
             }
         }
         // a third of the corrupted LITERAL sources come after one or two well-formed sources
@@ -427,6 +441,15 @@ impl Scenario for C17Corrupt {
                 }
             }
         }
+        // one literal case in twenty follows a hand-written module of other notation in the same source
+        let mut fpre = root.fork("prelude");
+        let n_pre = preludes().len();
+        for c in cases.iter_mut() {
+            if !c.file && fpre.chance(1, 20) {
+                c.prelude = Some(fpre.below(n_pre) as u32);
+                c.pre = 0;
+            }
+        }
         serde_json::to_value(&Plan { seed, set, cases, entropy: root.fork("hashkeys").next_u64() }).unwrap()
     }
 
@@ -435,18 +458,38 @@ impl Scenario for C17Corrupt {
         let mut out = Outcome::default();
         std::env::remove_var("CARGO");
         std::env::set_var("CARGO_HOME", format!("{root}/cargo-home"));
-        let (text, units) = layout(&p.set);
+        let (text, units0) = layout(&p.set);
         let mut digest = String::new();
+        let all_preludes = preludes();
+        let mut prelude_ok: std::collections::BTreeMap<u32, bool> = Default::default();
         for (ci, case) in p.cases.iter().enumerate() {
-            let pos = case.c.at();
-            if pos > text.len() || (pos == text.len() && !matches!(case.c, Corruption::Truncate { .. } | Corruption::TruncateAtBoundary { .. })) {
+            let pos0 = case.c.at();
+            if pos0 > text.len() || (pos0 == text.len() && !matches!(case.c, Corruption::Truncate { .. } | Corruption::TruncateAtBoundary { .. })) {
                 continue;
             }
             let corrupted = apply(&case.c, &text);
-            let Ok(ctext) = String::from_utf8(corrupted.clone()) else {
+            let Ok(ctext0) = String::from_utf8(corrupted.clone()) else {
                 out.count("skipped.not_utf8", 1);
                 continue;
             };
+            // a prelude module in front, if it compiles on its own (harness-side probe, same process)
+            let mut shift = 0usize;
+            let mut ctext = ctext0;
+            if let (Some(k), false) = (case.prelude, case.file) {
+                if let Some(pre) = all_preludes.get(k as usize) {
+                    let ok = *prelude_ok.entry(k).or_insert_with(|| sut::compile_to_string(&BackendSel::Ts, &[Src::Literal(pre.to_string())], &Default::default()).ok);
+                    if ok {
+                        let head = format!("{}\n\n", pre.trim_end());
+                        shift = head.len();
+                        ctext = format!("{head}{ctext}");
+                        out.count("delivery.after_a_hand_written_module_in_the_same_source", 1);
+                    } else {
+                        out.count("skipped.prelude_does_not_compile", 1);
+                    }
+                }
+            }
+            let pos = pos0 + shift;
+            let units: Vec<Unit> = units0.iter().map(|u| Unit { kind: u.kind, name: u.name.clone(), wide_start: u.wide_start + shift, start: u.start + shift, end: u.end + shift }).collect();
             let path = format!("{root}/in{ci}.asn1");
             let srcs = if case.file {
                 // the stored file is intact; the seam corrupts the bytes in flight
@@ -576,8 +619,8 @@ impl Scenario for C17Corrupt {
             if let Corruption::BreakCommentEnd { from, .. } = &case.c {
                 // the comment never ends: anything from its opening to the end of input is a
                 // defensible position, anything before it is not
-                if r.offset < *from {
-                    out.violate("not-before-malformed-unit", format!("reported offset {} lies before the unterminated comment that starts at {from}; {ctx}", r.offset));
+                if r.offset < *from + shift {
+                    out.violate("not-before-malformed-unit", format!("reported offset {} lies before the unterminated comment that starts at {}; {ctx}", r.offset, *from + shift));
                 }
             } else if r.offset > pos && matches!(case.c, Corruption::BlankThenReplace { in_default: true, .. }) {
                 // KNOWN FINDING (known_findings.txt, key lenient-comma-then-damaged-default): the lexer
